@@ -2,22 +2,63 @@
 (LALR action / goto / productions, lexer regex tables) are shared instead of copied (0.9 ms instead of
 17 ms, measured).  Everything else - every attribute a change to the repository may add to the parser,
 its lexer or its LALR driver - is deep-copied, so clones share no mutable state that is not one of
-those tables; the tables themselves are included (by content hash) in the state dumps of C11."""
+those tables; the tables themselves are included (by content hash) in the state dumps of C11.
+Read-only views (types.MappingProxyType), which deepcopy refuses, are immutable through the view and are shared."""
 import copy
+import types
+
+_cache = {}
+
+
+def _views(root, skip):
+    """Objects reachable from root that deepcopy cannot copy but that are read-only views: shared between clones."""
+    out = {}
+    seen = set(skip)
+    stack = [root]
+    n = 0
+    while stack and n < 200000:
+        x = stack.pop()
+        if id(x) in seen:
+            continue
+        seen.add(id(x))
+        n += 1
+        if isinstance(x, types.MappingProxyType):
+            out[id(x)] = x
+            continue
+        if isinstance(x, (str, bytes, int, float, bool, type(None), types.FunctionType, types.BuiltinFunctionType, types.ModuleType, type)):
+            continue
+        if isinstance(x, dict):
+            stack.extend(x.values())
+        elif isinstance(x, (list, tuple, set, frozenset)):
+            stack.extend(x)
+        else:
+            d = getattr(x, '__dict__', None)
+            if isinstance(d, dict):
+                stack.extend(d.values())
+            for s in getattr(type(x), '__slots__', ()) or ():
+                try:
+                    stack.append(getattr(x, s))
+                except AttributeError:
+                    pass
+    return out
 
 
 def static_memo(tpl):
-    memo = {}
-    for obj in (tpl.lex, tpl.yacc):
-        for k, v in vars(obj).items():
-            if isinstance(v, (dict, list, tuple)) and len(v) > 0:
-                try:
-                    big = len(repr(v)) > 2000
-                except Exception:  # noqa
-                    big = False
-                if big:
-                    memo[id(v)] = v
-    return memo
+    base = _cache.get(id(tpl))
+    if base is None or base[0] is not tpl:
+        memo = {}
+        for obj in (tpl.lex, tpl.yacc):
+            for k, v in vars(obj).items():
+                if isinstance(v, (dict, list, tuple)) and len(v) > 0:
+                    try:
+                        big = len(repr(v)) > 2000
+                    except Exception:  # noqa
+                        big = False
+                    if big:
+                        memo[id(v)] = v
+        memo.update(_views(tpl, set(memo)))
+        base = _cache[id(tpl)] = (tpl, memo)
+    return dict(base[1])
 
 
 def pristine(tpl):
